@@ -176,7 +176,11 @@ func (f *cwFailing) Write(b []byte) (int, error) {
 }
 
 // a source without WriteTo that hands out `chunk` bytes per Read
-type cwSource struct{ remaining, chunk int }
+// (eofWithData: the last bytes come together with io.EOF in one Read, as gzip.Reader / iotest.DataErrReader do)
+type cwSource struct {
+	remaining, chunk int
+	eofWithData      bool
+}
 
 func (s *cwSource) Read(p []byte) (int, error) {
 	if s.remaining == 0 {
@@ -190,6 +194,9 @@ func (s *cwSource) Read(p []byte) (int, error) {
 		n = s.remaining
 	}
 	s.remaining -= n
+	if s.eofWithData && s.remaining == 0 {
+		return n, io.EOF
+	}
 	return n, nil
 }
 
@@ -225,7 +232,7 @@ func init() {
 				p := strings.Split(o[1:], "/")
 				t, _ := strconv.Atoi(p[0])
 				c, _ := strconv.Atoi(p[1])
-				n, err = cw.ReadFrom(&cwSource{remaining: t, chunk: c})
+				n, err = cw.ReadFrom(&cwSource{remaining: t, chunk: c, eofWithData: o[0] == 'R'})
 			}
 			e := "0"
 			if err != nil {
